@@ -41,11 +41,14 @@ class Req:
 
 def build(r, word, depth_label):
     """word: list of ops; returns steps, model info"""
-    steps = [wire.client()] + wire.login_sasl(sm=True, resumable=True) + [dict(op="wait_signal", name="connected"), dict(op="fence", sm=True)]
+    # the server may bind another resource than the one the client asked for (RFC 6120 7.7); the application keeps reconnecting with its own configuration
+    bj = wire.JID if r.random() < 0.5 else "alice@example.org/assigned-by-server"
+    steps = [wire.client()] + wire.login_sasl(sm=True, resumable=True, bind_jid=bj) + [dict(op="wait_signal", name="connected"), dict(op="fence", sm=True)]
     reqs = []
     seg = [0]
     connected, resumable_down = [True], [False]
-    events = []   # (segment, description) for witnesses
+    manual_ack = r.random() < 0.5
+    events = [(0, ("bound-resource", bj.split("/")[1], "server-acks" if not manual_ack else "server-never-acks"))]   # (segment, description) for witnesses
 
     def mark():
         seg[0] += 1
@@ -145,9 +148,9 @@ def build(r, word, depth_label):
                 steps.append(dict(op="wait_signal", name="connected"))
             else:
                 if resumable_down[0]:
-                    steps.extend(wire.relogin(resume="fail", roster=True))
+                    steps.extend(wire.relogin(resume="fail", roster=True, bind_jid=bj))
                 else:
-                    st = wire.relogin(resume="fail", roster=True)
+                    st = wire.relogin(resume="fail", roster=True, bind_jid=bj)
                     st = [s for s in st if not (s.get("op") == "await" and s.get("tag") == "resume") and "failed xmlns" not in s.get("xml", "")]
                     for s in st:
                         if s.get("op") == "await" and s.get("child") == "bind":
@@ -190,6 +193,11 @@ def build(r, word, depth_label):
     cancel_all()
     steps.append(dict(op="settle", quiet=10))
     mark()
+    if manual_ack:
+        # the server never acknowledges what the client sends: every request stays in the client's table of unacknowledged stanzas
+        for s_ in steps:
+            if s_.get("smOn"):
+                s_["manualAck"] = True
     return steps, reqs, events
 
 
